@@ -20,16 +20,9 @@ theorem C13_read_after_set (l : L) (a : Addr) (k : String) (v : Bytes) :
     · simp [putAcct]
     · simp
 
-/-- the same for the un-journaled `AddState` -/
+/-- the same for `AddState` -/
 theorem C13_read_after_add (l : L) (a : Addr) (k : String) (v : Bytes) :
-    (getState (addState l a k v) a k).2 = v := by
-  unfold addState
-  cases hg : getState l a k with
-  | mk l1 prev =>
-    simp only
-    apply getState_dirty (acc := { ((KV.get l1.accounts a).getD {}) with dirtyState := KV.set ((KV.get l1.accounts a).getD {}).dirtyState k v })
-    · simp [putAcct]
-    · simp
+    (getState (addState l a k v) a k).2 = v := C13_read_after_set l a k v
 
 /-- a write to one key does not change what a read of another key of the same account returns from
 the dirty set -/
